@@ -305,6 +305,12 @@ pub fn run(tier: Tier) -> i32 {
             for ff in 0..=40usize {
                 cases.push((fmt, n, ff));
             }
+            // long runs of 0xFF (an erased page): lengths around the powers of two of narrow counters
+            if n <= 12 {
+                for ff in [254usize, 255, 256, 257, 260, 271, 272, 511, 512, 513, 520, 1000, 4096] {
+                    cases.push((fmt, n, ff));
+                }
+            }
         }
     }
     let r1 = par_map(&cases, |_, (f, n, k)| check_preprocess(*f, *n, *k));
